@@ -185,7 +185,7 @@ def evidence_dir():
     """Runs against a scratch copy (VERIF_REPO, used by the self-test and by mutant trials)
     must not overwrite the evidence of the real tree."""
     if os.environ.get("VERIF_REPO", "/repo") != "/repo":
-        return os.path.join(VERIF, ".cache", "scratch-evidence")
+        return os.path.join(VERIF, ".cache", "scratch-evidence", os.path.basename(os.environ["VERIF_REPO"].rstrip("/")))
     return os.path.join(VERIF, "evidence")
 
 
